@@ -572,7 +572,58 @@ def rule_f(ctx):
     ctx.floor(R, 8)
 
 
+def rule_g(ctx):
+    R = "C09.g"
+    ctx.rule(R, "scaling, translation and rotation act as given: AffineTransformation.set_parameters is folded for every subset of "
+             "{translation, scaling, rotation} (2-d and 3-d) on an object with symbolic previous parameters -- a parameter that is passed "
+             "is stored, a parameter that is not passed keeps its previous value, whatever else is passed")
+    from ..fold import Folder, Obj, Opaque, Raised, Refuse
+    from ..terms import nf
+
+    m = ctx.model
+    f = m.func(AFF, "AffineTransformation.set_parameters")
+    ctx.instance(R)
+    bad, und = [], []
+    for dim in (2, 3):
+        for mask in range(8):
+            given = {"translation": bool(mask & 1), "scaling": bool(mask & 2), "rotation": bool(mask & 4)}
+            so = Obj("self", {"__class__": "AffineTransformation", "dim": dim, "translation": Opaque("v", "T0"), "scaling": Opaque("s", "S0"),
+                              "rotation": Opaque("m", "R0"), "rotation_inv": Opaque("m", "RI0")})
+            kw = {}
+            if given["translation"]:
+                kw["translation"] = Opaque("v", "T1")
+            if given["scaling"]:
+                kw["scaling"] = Opaque("s", "S1")
+            if given["rotation"]:
+                kw["rotation"] = [Opaque("a", f"A{k}") for k in range(1 if dim == 2 else 3)]
+            fo = Folder(symbolic=True)
+            fo.func_stack.append(f.node)
+            fo.fold_all_methods = True
+            try:
+                fo.call(f.node, [so], kw)
+            except (Refuse, Raised) as e:
+                und.append(f"dim {dim}, given {sorted(k for k, v in given.items() if v)}: {e}")
+                continue
+            case = f"dim {dim}, passed {sorted(k for k, v in given.items() if v) or 'nothing'}"
+            for name, old, new_ in (("translation", "T0", "T1"), ("scaling", "S0", "S1")):
+                got = nf(so.fields.get(name))
+                want = new_ if given[name] else old
+                if got != want:
+                    bad.append(f"{case}: self.{name} is {got}, expected {want}")
+            r_, ri_ = nf(so.fields.get("rotation")), nf(so.fields.get("rotation_inv"))
+            if given["rotation"] and (r_ == "R0" or ri_ == "RI0"):
+                bad.append(f"{case}: the rotation is not updated")
+            if not given["rotation"] and (r_ != "R0" or ri_ != "RI0"):
+                bad.append(f"{case}: the rotation changes although none was passed")
+    if und and not bad:
+        ctx.ob(R, f.qname, "each passed parameter is stored, each omitted one is kept (all subsets, 2-d and 3-d)", False, "", f.node)
+    else:
+        ctx.ob(R, f.qname, "each passed parameter is stored, each omitted one is kept (all subsets, 2-d and 3-d)", not bad, "; ".join(bad[:3]), f.node, evidence=True)
+    ctx.floor(R, 1)
+
+
 def run(ctx):
+    rule_g(ctx)
     rule_a(ctx)
     rule_b(ctx)
     rule_c(ctx)
